@@ -222,7 +222,7 @@ theorem step_sendTrans (c c' : Chan) (ev : Ev) (ms : List Msg) (os : List Out) (
     | close =>
       obtain ⟨_, ms1, h1, _⟩ := step_recv_close_ok h
       obtain ⟨_, _, _, hst, _, _, _, _, hwf⟩ := closeSend_spec c hs
-      have hw0 : WFs { (closeSend c).1 with recvState := .closePending } := ⟨hwf.chanOpen, hwf.drained⟩
+      have hw0 : WFs { (closeSend c).1 with recvEofPending := decide (c.recvState = .eofPending), recvState := .closePending } := ⟨hwf.chanOpen, hwf.drained⟩
       exact Or.inr (Or.inr (Or.inr ((flushRecv_spec _ _ _ _ hw0 h1).eff.lateMono (Or.inr hst))))
 
 /-- the history flag `eofSig` covers the send states `eof_pending` and `eof` -/
@@ -248,6 +248,7 @@ structure EInv (s : Sys) : Prop where
   inFlight : ∀ x, Msg.eof ∈ s.link x.other → (s.hist x).eofSig = true
   got : ∀ x, rStage (s.ep x.other) = 1 → (s.hist x).eofSig = true
   seen : ∀ x, Out.eof ∈ (s.hist x.other).dl → (s.hist x).eofSig = true
+  flag : ∀ x, (s.ep x.other).recvEofPending = true → (s.hist x).eofSig = true
 
 theorem evStage_one {ev : Ev} {r : Nat} (h : evStage ev r = 1) : ev = .recv .eof ∨ r = 1 := by
   unfold evStage at h
@@ -280,7 +281,16 @@ theorem einv_step_core (s s' : Sys) (z : Side) (ev : Ev) (c' : Chan) (ms : List 
         exact hif (by rw [hl]; simp)
       · exact absurd h2 (hne _)
     · exact hgo h2
-  refine ⟨?_, ?_, ?_, ?_⟩
+  -- a pending-EOF flag at `z` after the step is explained by the state before
+  have hflag : c'.recvEofPending = true → (s.hist z.other).eofSig = true := by
+    intro hf
+    have hfo := he.flag z.other
+    have hgo := he.got z.other
+    rw [Side.other_other] at hfo hgo
+    rcases hso.flagSrc hf with h1 | ⟨_, h1⟩
+    · exact hfo h1
+    · exact hgo (by simp [rStage, h1])
+  refine ⟨?_, ?_, ?_, ?_, ?_⟩
   · intro x
     rcases Side.eq_or_other x z with rfl | rfl
     · rw [he1, hh1]; exact hloc'
@@ -314,8 +324,18 @@ theorem einv_step_core (s s' : Sys) (z : Side) (ev : Ev) (c' : Chan) (ms : List 
       · have := he.seen z.other
         rw [Side.other_other] at this
         exact this hm
-      · apply hgot
-        simp [rStage, (hso.eofOut hm).1]
+      · rcases (hso.eofOut hm).2 with h1 | ⟨_, h1 | ⟨_, h1⟩⟩
+        · exact hgot (by simp [rStage, h1])
+        · have := he.flag z.other
+          rw [Side.other_other] at this
+          exact this h1
+        · have := he.got z.other
+          rw [Side.other_other] at this
+          exact this (by simp [rStage, h1])
+  · intro x
+    rcases Side.eq_or_other x z with rfl | rfl
+    · rw [he2, hh1]; intro h1; exact hmono (he.flag x h1)
+    · rw [Side.other_other, he1, hh2]; exact hflag
 
 theorem einv_step (s s' : Sys) (ev : Event) (hinv : Inv s) (he : EInv s) (h : s.step ev = .ok s') : EInv s' := by
   cases ev with
@@ -352,10 +372,209 @@ theorem einv_step (s s' : Sys) (ev : Event) (hinv : Inv s) (he : EInv s) (h : s.
         · cases m <;> rfl
 
 theorem einv_init (ca cb : SideCfg) : EInv (Sys.init ca cb) := by
-  refine ⟨?_, ?_, ?_, ?_⟩
+  refine ⟨?_, ?_, ?_, ?_, ?_⟩
   · intro x h; cases x <;> simp [Sys.init, Chan.opened] at h
   · intro x h; cases x <;> simp [Sys.init] at h
   · intro x h; cases x <;> simp [Sys.init, Chan.opened, rStage, Side.other] at h
   · intro x h; cases x <;> simp [Sys.init] at h
+  · intro x h; cases x <;> simp [Sys.init, Chan.opened, Side.other] at h
+
+/-! ### an EOF that was put on the wire reaches the session (fix 024eb80) -/
+
+/-- the states in which a received EOF waits for delivery -/
+def EofWaiting (c : Chan) : Prop :=
+  c.recvState = .eofPending ∨ (c.recvState = .closePending ∧ c.recvEofPending = true)
+
+theorem FlushRecvSpec.waiting {c0 c' : Chan} {ms : List Msg} {os : List Out} (sp : FlushRecvSpec c0 c' ms os)
+    (h : EofWaiting c0) : EofWaiting c' ∨ Out.eof ∈ os := by
+  rcases h with h | ⟨h1, h2⟩
+  · rcases sp.recvTrans with ht | ⟨_, ht⟩ | ⟨ht, _⟩
+    · left; left; rw [ht]; exact h
+    · right
+      rcases sp.eofState ht with h3 | h3
+      · rw [h] at h3; cases h3
+      · exact h3
+    · rw [h] at ht; cases ht
+  · rcases sp.recvTrans with ht | ⟨ht, _⟩ | ⟨_, ht⟩
+    · left; right
+      refine ⟨ht.trans h1, ?_⟩
+      rw [sp.flagKeep (by rw [ht, h1]; simp)]; exact h2
+    · rw [h1] at ht; cases ht
+    · right; exact sp.flagOut h1 h2 ht
+
+/-- a waiting EOF stays waiting or is delivered, unless the application closes the channel -/
+theorem step_eofProgress (c c' : Chan) (ev : Ev) (ms : List Msg) (os : List Out) (hw : WF c)
+    (h : step c ev = .ok (c', ms, os)) :
+    (EofWaiting c → EofWaiting c' ∨ Out.eof ∈ os ∨ ev = .close) ∧
+    (ev = .recv .eof → EofWaiting c' ∨ Out.eof ∈ os) := by
+  have keep : c'.recvState = c.recvState → c'.recvEofPending = c.recvEofPending → EofWaiting c → EofWaiting c' := by
+    intro h1 h2 hwt
+    unfold EofWaiting at *
+    rw [h1, h2]; exact hwt
+  cases ev with
+  | write dt bs =>
+    refine ⟨fun hwt => Or.inl ?_, fun h => by cases h⟩
+    obtain ⟨hs, _, _, ⟨_, hc, _⟩ | ⟨_, h1⟩⟩ := step_write_ok h
+    · rw [hc]; exact hwt
+    · have hw0 : WFs { c with sendBuf := c.sendBuf ++ [(bs, dt)] } :=
+        ⟨hw.s.chanOpen, by intro h2; simp [hs] at h2⟩
+      have sp := flushSend_spec _ _ _ hw0 h1
+      exact keep sp.same.recvState sp.same.recvEofPending hwt
+  | writeEof =>
+    refine ⟨fun hwt => Or.inl ?_, fun h => by cases h⟩
+    obtain ⟨_, h2, _, _, _, _, h6, _⟩ := writeEof_spec _ _ _ hw.s (step_writeEof_ok h).1
+    exact keep h2 h6 hwt
+  | close => exact ⟨fun _ => Or.inr (Or.inr rfl), fun h => by cases h⟩
+  | pause =>
+    obtain ⟨rfl, _, _⟩ := step_pause_ok h
+    exact ⟨fun hwt => Or.inl hwt, fun h => by cases h⟩
+  | armPause k =>
+    obtain ⟨rfl, _, _⟩ := step_arm_ok h
+    exact ⟨fun hwt => Or.inl hwt, fun h => by cases h⟩
+  | resume =>
+    refine ⟨fun hwt => ?_, fun h => by cases h⟩
+    rcases step_resume_ok h with ⟨_, h1⟩ | ⟨_, hc, _, _⟩
+    · have hw0 : WFs { c with recvPaused := .no } := ⟨hw.s.chanOpen, hw.s.drained⟩
+      rcases (flushRecv_spec _ _ _ _ hw0 h1).waiting hwt with h2 | h2
+      · exact Or.inl h2
+      · exact Or.inr (Or.inl h2)
+    · rw [hc]; exact Or.inl hwt
+  | startReading =>
+    refine ⟨fun hwt => ?_, fun h => by cases h⟩
+    rcases step_start_ok h with ⟨_, h1⟩ | ⟨_, hc, _, _⟩
+    · have hw0 : WFs { c with recvPaused := .no } := ⟨hw.s.chanOpen, hw.s.drained⟩
+      rcases (flushRecv_spec _ _ _ _ hw0 h1).waiting hwt with h2 | h2
+      · exact Or.inl h2
+      · exact Or.inr (Or.inl h2)
+    · rw [hc]; exact Or.inl hwt
+  | recv m =>
+    cases m with
+    | data dt bs =>
+      obtain ⟨hs, _⟩ := step_recv_data_ok h
+      refine ⟨fun hwt => ?_, fun h => by cases h⟩
+      rcases hwt with h1 | ⟨h1, _⟩ <;> (rw [hs] at h1; cases h1)
+    | adjust n =>
+      refine ⟨fun hwt => Or.inl ?_, fun h => by cases h⟩
+      have hw0 : WFs { c with sendWindow := c.sendWindow + n } := ⟨hw.s.chanOpen, hw.s.drained⟩
+      have sp := flushSend_spec _ _ _ hw0 (step_recv_adjust_ok h).2.1
+      exact keep sp.same.recvState sp.same.recvEofPending hwt
+    | eof =>
+      obtain ⟨hs, h1⟩ := step_recv_eof_ok h
+      have hw0 : WFs { c with recvState := .eofPending } := ⟨hw.s.chanOpen, hw.s.drained⟩
+      have := (flushRecv_spec _ _ _ _ hw0 h1).waiting (Or.inl rfl)
+      refine ⟨fun hwt => ?_, fun _ => this⟩
+      rcases hwt with h2 | ⟨h2, _⟩ <;> (rw [hs] at h2; cases h2)
+    | close =>
+      refine ⟨fun hwt => ?_, fun h => by cases h⟩
+      obtain ⟨hop, ms1, h1, _⟩ := step_recv_close_ok h
+      obtain ⟨_, _, _, _, _, _, _, _, hwf⟩ := closeSend_spec c hw.s
+      have hw0 : WFs { (closeSend c).1 with recvEofPending := decide (c.recvState = .eofPending), recvState := .closePending } := ⟨hwf.chanOpen, hwf.drained⟩
+      rcases hwt with h2 | ⟨h2, _⟩
+      · have hwt0 : EofWaiting { (closeSend c).1 with recvEofPending := decide (c.recvState = .eofPending), recvState := .closePending } :=
+          Or.inr ⟨rfl, by simp [h2]⟩
+        rcases (flushRecv_spec _ _ _ _ hw0 h1).waiting hwt0 with h3 | h3
+        · exact Or.inl h3
+        · exact Or.inr (Or.inl h3)
+      · rw [h2] at hop; simp [recvOpenish] at hop
+
+/-- Once `x` has put EOF on the wire it is in flight, waiting at the peer, or delivered — unless the peer's
+    application closed the channel. -/
+structure SInv (s : Sys) : Prop where
+  sent : ∀ x, (s.hist x).eofSent = true →
+    Msg.eof ∈ s.link x.other ∨ EofWaiting (s.ep x.other) ∨ Out.eof ∈ (s.hist x.other).dl ∨
+    (s.hist x.other).appClosed = true
+
+theorem sinv_step_core (s s' : Sys) (z : Side) (ev : Ev) (c' : Chan) (ms : List Msg) (os : List Out)
+    (linkz' : List Msg) (h0 : Hist) (hinv : Inv s) (hsi : SInv s)
+    (hstep : step (s.ep z) ev = .ok (c', ms, os))
+    (hlink : (∃ m, ev = .recv m ∧ s.link z = m :: linkz') ∨ ((∀ m, ev ≠ .recv m) ∧ linkz' = s.link z))
+    (h0s : h0.eofSent = (s.hist z).eofSent) (h0d : h0.dl = (s.hist z).dl)
+    (h0a : h0.appClosed = ((s.hist z).appClosed || decide (ev = .close)))
+    (he1 : s'.ep z = c') (he2 : s'.ep z.other = s.ep z.other)
+    (hl1 : s'.link z = linkz') (hl2 : s'.link z.other = s.link z.other ++ ms)
+    (hh1 : s'.hist z = h0.record (s.ep z) c' ms os) (hh2 : s'.hist z.other = s.hist z.other) : SInv s' := by
+  obtain ⟨hprog, hcons⟩ := step_eofProgress _ _ _ _ _ (hinv.wf z) hstep
+  refine ⟨?_⟩
+  intro x
+  rcases Side.eq_or_other x z with rfl | rfl
+  · -- `x` is the side that moved: it may have sent the EOF just now
+    rw [he2, hh1, hh2, hl2]
+    intro hs
+    simp only [Hist.record, h0s, Bool.or_eq_true, decide_eq_true_eq] at hs
+    rcases hs with hs | hs
+    · rcases hsi.sent x hs with h1 | h1 | h1 | h1
+      · exact Or.inl (List.mem_append_left _ h1)
+      · exact Or.inr (Or.inl h1)
+      · exact Or.inr (Or.inr (Or.inl h1))
+      · exact Or.inr (Or.inr (Or.inr h1))
+    · exact Or.inl (List.mem_append_right _ hs)
+  · -- the receiver of that EOF moved
+    rw [Side.other_other, he1, hh1, hh2, hl1]
+    intro hs
+    have hold := hsi.sent z.other hs
+    rw [Side.other_other] at hold
+    have hdl : (h0.record (s.ep z) c' ms os).dl = (s.hist z).dl ++ os := by simp [Hist.record, h0d]
+    have hac : (h0.record (s.ep z) c' ms os).appClosed = ((s.hist z).appClosed || decide (ev = .close)) := by
+      simp [Hist.record, h0a]
+    rw [hdl, hac]
+    have fromWaiting : EofWaiting (s.ep z) → Msg.eof ∈ linkz' ∨ EofWaiting c' ∨ Out.eof ∈ (s.hist z).dl ++ os ∨
+        ((s.hist z).appClosed || decide (ev = .close)) = true := by
+      intro hwt
+      rcases hprog hwt with h2 | h2 | h2
+      · exact Or.inr (Or.inl h2)
+      · exact Or.inr (Or.inr (Or.inl (List.mem_append_right _ h2)))
+      · exact Or.inr (Or.inr (Or.inr (by simp [h2])))
+    rcases hold with h1 | h1 | h1 | h1
+    · rcases hlink with ⟨m, hm, hl⟩ | ⟨_, hl⟩
+      · rw [hl] at h1
+        rcases List.mem_cons.mp h1 with h2 | h2
+        · subst h2
+          rcases hcons hm with h3 | h3
+          · exact Or.inr (Or.inl h3)
+          · exact Or.inr (Or.inr (Or.inl (List.mem_append_right _ h3)))
+        · exact Or.inl h2
+      · rw [hl]; exact Or.inl h1
+    · exact fromWaiting h1
+    · exact Or.inr (Or.inr (Or.inl (List.mem_append_left _ h1)))
+    · exact Or.inr (Or.inr (Or.inr (by simp [h1])))
+
+theorem sinv_step (s s' : Sys) (ev : Event) (hinv : Inv s) (hsi : SInv s) (h : s.step ev = .ok s') : SInv s' := by
+  cases ev with
+  | app z e =>
+    simp only [Sys.step] at h
+    split at h
+    · split at h
+      · simp only [Except.ok.injEq] at h; subst h; exact hsi
+      · simp at h
+    · rename_i r hr
+      simp only [Except.ok.injEq] at h
+      subst h
+      obtain ⟨c', ms, os⟩ := r
+      refine sinv_step_core s _ z e.toEv c' ms os (s.link z) ((s.hist z).recordApp e) hinv hsi hr
+        (Or.inr ⟨fun m => AppEv.toEv_not_recv e m, rfl⟩) ?_ ?_ ?_ (by simp [Sys.apply]) (by simp [Sys.apply])
+        (by simp [Sys.apply]) (by simp [Sys.apply]) (by simp [Sys.apply]) (by simp [Sys.apply])
+      · cases e <;> rfl
+      · cases e <;> rfl
+      · cases e <;> simp [Hist.recordApp, AppEv.toEv]
+  | deliver z =>
+    simp only [Sys.step] at h
+    split at h
+    · simp only [Except.ok.injEq] at h; subst h; exact hsi
+    · rename_i m rest hl
+      split at h
+      · simp at h
+      · rename_i r hr
+        simp only [Except.ok.injEq] at h
+        subst h
+        obtain ⟨c', ms, os⟩ := r
+        refine sinv_step_core s _ z (.recv m) c' ms os rest ((s.hist z).recordRecv m) hinv hsi hr
+          (Or.inl ⟨m, rfl, hl⟩) ?_ ?_ ?_ (by simp [Sys.apply]) (by simp [Sys.apply])
+          (by simp [Sys.apply]) (by simp [Sys.apply]) (by simp [Sys.apply]) (by simp [Sys.apply])
+        · cases m <;> rfl
+        · cases m <;> rfl
+        · cases m <;> simp [Hist.recordRecv]
+
+theorem sinv_init (ca cb : SideCfg) : SInv (Sys.init ca cb) :=
+  ⟨fun x h => by cases x <;> simp [Sys.init] at h⟩
 
 end AsyncsshModel.Channel
